@@ -3,6 +3,8 @@ package mon
 import (
 	"bytes"
 	"encoding/json"
+	"encoding/xml"
+	"io"
 	"fmt"
 	"math/rand"
 	"os"
@@ -444,6 +446,15 @@ func (c19) Case(c *core.Ctx) {
 					break
 				}
 			}
+			// "malformed files yield an error": an independent judge of malformedness - the standard library's own
+			// reader over the whole damaged file (a sequence of JSON objects / a token stream encoding/xml accepts)
+			if got.err == nil && c19malformed(mut, isJSON) {
+				c.Count("substitution:malformed-by-std")
+				c.Violate("c19-corrupt-no-error", "a damaged file (XML: rejected by the strict encoding/xml tokenizer; JSON: a closing brace that closes nothing) was read without an error", det)
+				break
+			} else if got.err != nil {
+				c.Count("substitution:error-reported")
+			}
 		}
 		os.WriteFile(fn, data, 0o644)
 	}
@@ -546,6 +557,54 @@ func (c19) Case(c *core.Ctx) {
 		}
 		if err := mvs.XmlFile(filepath.Join(dir, "no-such-dir", "x")); err == nil {
 			c.Violate("c19-bad-path-accepted", "XmlFile into a missing directory reported success", nil)
+		}
+	}
+}
+
+// c19malformed: for XML, the standard library rejects the file as a whole (the strict tokenizer meets an error before the
+// end); for JSON, a closing brace outside every string that closes nothing.
+func c19malformed(b []byte, isJSON bool) bool {
+	if isJSON {
+		// The JSON readers are documented to read "from the first '{' to its closing '}'": bytes between documents are
+		// skipped, white space outside strings is dropped (finding F14), so the standard decoder over the whole file
+		// is not the judge here. What the readers do promise to notice is a closing brace that closes nothing. The
+		// scan below follows the documented reading (strings with escapes, brace depth, one document after another).
+		inQuote, esc, depth, inDoc := false, false, 0, false
+		for _, ch := range b {
+			switch {
+			case inQuote:
+				if esc {
+					esc = false
+				} else if ch == '\\' {
+					esc = true
+				} else if ch == '"' {
+					inQuote = false
+				}
+			case ch == '"':
+				inQuote = true
+			case ch == '{':
+				depth++
+				inDoc = true
+			case ch == '}':
+				depth--
+				if depth < 0 {
+					return true
+				}
+				if depth == 0 && inDoc {
+					inDoc = false
+				}
+			}
+		}
+		return false
+	}
+	d := xml.NewDecoder(bytes.NewReader(b))
+	for {
+		_, err := d.RawToken()
+		if err == io.EOF {
+			return false
+		}
+		if err != nil {
+			return true
 		}
 	}
 }
